@@ -60,6 +60,17 @@ fn copy_tree(from: &Path, to: &Path) {
     }
 }
 
+/// Ok(true) = the verifier backed off (no verdict), Ok(false) = it accepted, Err = it rejected.
+fn verifier_verdict_detailed(cfg: &driver::StoreConfig, root: &Path) -> Result<bool, String> {
+    let opts = cfg.options(&root.to_string_lossy());
+    let mut v = LsmVerifier::open(opts).map_err(|e| format!("open: {e:?}"))?;
+    match v.verify() {
+        Ok(()) => Ok(false),
+        Err(e) if lsmtk::error_code(&e) == Some(lsmtk::CODE_BACKOFF) => Ok(true),
+        Err(e) => Err(vcore::truncate(&format!("{e:?}"), 300)),
+    }
+}
+
 fn verifier_verdict(cfg: &driver::StoreConfig, root: &Path) -> Result<(), String> {
     let opts = cfg.options(&root.to_string_lossy());
     let mut v = LsmVerifier::open(opts).map_err(|e| format!("open: {e:?}"))?;
@@ -203,6 +214,334 @@ impl Property for TamperDigits {
         })();
         let _ = std::fs::remove_dir_all(&root);
         let _ = std::fs::remove_dir_all(root.with_extension("copy"));
+        if let Err((s, m)) = res {
+            o.fail(s, m);
+        }
+        o
+    }
+}
+
+///////////////////////////////////////// content tamper ///////////////////////////////////////////
+
+/// C04 reject half, content level: the output of a hypothetical buggy garbage collection.  One
+/// entry that the configured policy requires to be retained is removed from one output sst of one
+/// GC transaction; the file is rebuilt under its new setsum, and the manifest history is patched so
+/// that it stays *self-consistent*: the `+` line names the new file, the transaction's discard grows
+/// and its output shrinks by the entry's setsum, every later input / output / roll-up is shifted
+/// accordingly, and every later mention of the old digest is renamed.  Every balance equation still
+/// holds, so only the verifier's replay of the garbage collection can notice the loss.
+pub struct TamperGcOutput;
+
+struct ParsedLine {
+    action: char,
+    payload: String,
+}
+
+fn parse_lines(text: &str) -> Vec<Option<ParsedLine>> {
+    // None = transaction separator
+    let mut out = vec![];
+    for line in text.split('\n') {
+        if line.is_empty() {
+            continue;
+        }
+        if line == "--------" {
+            out.push(None);
+        } else if line.len() >= 9 {
+            let mut ch = line[8..].chars();
+            let action = ch.next().unwrap();
+            out.push(Some(ParsedLine { action, payload: ch.as_str().to_string() }));
+        }
+    }
+    out
+}
+
+fn render(lines: &[Option<ParsedLine>]) -> String {
+    let mut s = String::new();
+    for l in lines {
+        match l {
+            None => s.push_str("--------\n"),
+            Some(p) => {
+                let body = format!("{}{}", p.action, p.payload);
+                s.push_str(&format!("{:08x}{}\n", crc32c::crc32c(body.as_bytes()), body));
+            }
+        }
+    }
+    s
+}
+
+fn setsum_of(e: &vcore::refcursor::Entry) -> setsum::Setsum {
+    let mut s = sst::Setsum::default();
+    match &e.2 {
+        Some(v) => s.put(&e.0, e.1, v),
+        None => s.del(&e.0, e.1),
+    }
+    s.into_inner()
+}
+
+impl Property for TamperGcOutput {
+    type Case = TamperCase;
+    fn name(&self) -> String {
+        "tamper-gc-output".into()
+    }
+    fn cases(&self, tier: Tier) -> u64 {
+        tier.pick(60, 1500)
+    }
+    fn max_shrink_iters(&self) -> u32 {
+        100
+    }
+    fn strategy(&self, ctx: &Ctx) -> BoxedStrategy<TamperCase> {
+        let mut w = OpWeights::base();
+        w.verify = 0;
+        w.reopen = 1;
+        w.compact = 40;
+        w.del = 16;
+        w.oversize = 0;
+        let ops = ctx.tier.pick(200usize, 350);
+        // versions = N policies make "required to retain" non-empty and GC drop something
+        let hist = driver::history_strategy(Profile::Shape, w, 0, 0..1, 40..ops).prop_map(|mut h| {
+            if !h.config.gc_policy.starts_with("versions") {
+                h.config.gc_policy = "versions = 1".into();
+            }
+            h.config.mani_rollover_ratio = 2;
+            h
+        });
+        (hist, prop::collection::vec((any::<u16>(), any::<u16>(), any::<u16>(), any::<u16>(), 0u8..15), 1..2)).prop_map(|(history, picks)| TamperCase { history, picks }).boxed()
+    }
+    fn run(&self, ctx: &Ctx, c: &TamperCase) -> Outcome {
+        let mut o = Outcome::pass();
+        let mut hs = match Harness::new(ctx, &c.history, Probes::default()) {
+            Ok(h) => h,
+            Err(f) => {
+                o.failure = Some(f);
+                return o;
+            }
+        };
+        for op in c.history.ops.iter() {
+            if let Err(f) = hs.apply(op) {
+                o.failure = Some(f);
+                hs.destroy();
+                return o;
+            }
+        }
+        let root: PathBuf = hs.root.clone();
+        hs.close();
+        let cfg = c.history.config.clone();
+        let scratch = root.with_extension("gc");
+        let res = (|| -> Result<(), (String, String)> {
+            if crate::manifest::readded_after_removal(&root).unwrap_or(false) && !ctx.strict {
+                o.excluded.push("R-R".into());
+                return Ok(());
+            }
+            let frags = crate::manifest::fragments(&root);
+            if frags.len() < 3 {
+                return Ok(());
+            }
+            // which fragments does the offline verifier process on the genuine history?
+            let _ = std::fs::remove_dir_all(&scratch);
+            copy_tree(&root, &scratch);
+            let genuine = verifier_verdict(&cfg, &scratch);
+            let processed: Vec<PathBuf> = frags.iter().filter(|f| !scratch.join("mani").join(f.file_name().unwrap()).exists()).cloned().collect();
+            let _ = std::fs::remove_dir_all(&scratch);
+            genuine.map_err(|e| ("verify:rejected".to_string(), format!("the offline verifier rejected the untampered history: {e}")))?;
+            // GC transactions (discard != 0 and something removed) in processed fragments
+            let policy = crate::gcmodel::parse(&cfg.gc_policy).map_err(|e| ("harness:gc-policy-parse".to_string(), e))?;
+            let zero = setsum::Setsum::default().hexdigest();
+            let mut candidates: Vec<(usize, usize)> = vec![]; // (fragment index in frags, txn index)
+            for (fi, f) in frags.iter().enumerate() {
+                if !processed.contains(f) {
+                    continue;
+                }
+                let txns = crate::manifest::parse_fragment(f).map_err(|e| ("harness:manifest-parse".to_string(), e))?;
+                for (ti, t) in txns.iter().enumerate().skip(1) {
+                    if !t.removed.is_empty() && !t.added.is_empty() && t.info.get(&'D').map(|d| *d != zero).unwrap_or(false) {
+                        candidates.push((fi, ti));
+                    }
+                }
+            }
+            if candidates.is_empty() {
+                o.label("no-gc-transaction-in-a-processed-fragment");
+                return Ok(());
+            }
+            let (fsel, tsel, lsel, _, _) = c.picks[0];
+            let (fi, ti) = candidates[vcore::gens::sel(fsel, candidates.len())];
+            let txns = crate::manifest::parse_fragment(&frags[fi]).unwrap();
+            let t = &txns[ti];
+            // inputs and outputs of the chosen GC
+            let find = |d: &str| -> Option<PathBuf> {
+                let a = root.join("trash").join(format!("{d}.sst"));
+                let b = root.join("sst").join(format!("{d}.sst"));
+                if a.is_file() { Some(a) } else if b.is_file() { Some(b) } else { None }
+            };
+            let mut inputs: Vec<vcore::refcursor::Entry> = vec![];
+            for r in t.removed.iter() {
+                let p = find(r).ok_or_else(|| ("harness:gc-input-missing".to_string(), r.clone()))?;
+                inputs.extend(driver::dump_sst(&p).map_err(|e| ("harness:dump".to_string(), e))?);
+            }
+            vcore::refcursor::sort_entries(&mut inputs);
+            let must = crate::gcmodel::must_retain(&policy, &inputs, 0);
+            // candidate (output file, entry) pairs: entries the policy requires
+            let mut victims: Vec<(String, vcore::refcursor::Entry, Vec<vcore::refcursor::Entry>)> = vec![];
+            for a in t.added.iter() {
+                if t.removed.contains(a) {
+                    continue;
+                }
+                let Some(p) = find(a) else { continue };
+                let ents = driver::dump_sst(&p).map_err(|e| ("harness:dump".to_string(), e))?;
+                if ents.len() < 2 {
+                    continue;
+                }
+                for e in ents.iter() {
+                    if must.contains(&(e.0.clone(), e.1)) {
+                        victims.push((a.clone(), e.clone(), ents.clone()));
+                    }
+                }
+            }
+            if victims.is_empty() {
+                o.label("gc-has-no-removable-required-entry");
+                return Ok(());
+            }
+            let (old_digest, victim, ents) = victims[vcore::gens::sel(tsel, victims.len())].clone();
+            let _ = lsel;
+            o.nontrivial = true;
+            o.label("tampered-gc-output");
+            // rebuild the output without the victim
+            let _ = std::fs::remove_dir_all(&scratch);
+            copy_tree(&root, &scratch);
+            let kept: Vec<vcore::refcursor::Entry> = ents.iter().filter(|e| **e != victim).cloned().collect();
+            let tmp = scratch.join("tmp").join("tampered.sst");
+            let opts = vsst::tables::BuildOpts { bytes_ri: cfg.bytes_ri, pairs_ri: cfg.pairs_ri, block_size: cfg.target_block_size };
+            let table = vsst::tables::build_sst(&tmp, &kept, &opts).map_err(|e| ("harness:rebuild".to_string(), format!("{e:?}")))?;
+            let new_digest = table.fast_setsum().hexdigest();
+            drop(table);
+            for dir in ["sst", "trash"] {
+                let _ = std::fs::copy(&tmp, scratch.join(dir).join(format!("{new_digest}.sst")));
+            }
+            let _ = std::fs::remove_file(&tmp);
+            let e = setsum_of(&victim);
+            // patch the history: rename the digest everywhere from the tampered transaction on, grow
+            // its discard, shrink its output, and shift everything later
+            let mut after = false; // past the tampered transaction
+            let mut shift_active = true; // until a later transaction removes the tampered file again
+            let mut this_txn_removes_it = false;
+            for (i, f) in frags.iter().enumerate() {
+                if i < fi {
+                    continue;
+                }
+                let path = scratch.join("mani").join(f.file_name().unwrap());
+                let text = std::fs::read_to_string(&path).map_err(|e| ("harness:io".to_string(), e.to_string()))?;
+                let mut lines = parse_lines(&text);
+                let mut txn = 0usize;
+                let mut last_is_tampered = false; // the last applied transaction is the tampered one
+                for l in lines.iter_mut() {
+                    let Some(p) = l else {
+                        if i == fi && txn == ti {
+                            after = true;
+                            last_is_tampered = true;
+                        } else if after && !(i > fi && txn == 0) {
+                            last_is_tampered = false;
+                        }
+                        if this_txn_removes_it {
+                            // the file is gone again: outputs are back to their genuine values
+                            shift_active = false;
+                            this_txn_removes_it = false;
+                        }
+                        txn += 1;
+                        continue;
+                    };
+                    let in_tampered = i == fi && txn == ti;
+                    let is_rollup = txn == 0;
+                    if in_tampered || after {
+                        if (p.action == '+' || p.action == '-') && p.payload == old_digest {
+                            if p.action == '-' && after && !is_rollup && shift_active {
+                                this_txn_removes_it = true;
+                            }
+                            p.payload = new_digest.clone();
+                        }
+                    }
+                    let shift = |p: &mut ParsedLine, by: setsum::Setsum, plus: bool| {
+                        if let Some(s) = setsum::Setsum::from_hexdigest(&p.payload) {
+                            p.payload = if plus { (s + by).hexdigest() } else { (s - by).hexdigest() };
+                        }
+                    };
+                    if in_tampered {
+                        match p.action {
+                            'O' => shift(p, e, false),
+                            'D' => shift(p, e, true),
+                            _ => {}
+                        }
+                    } else if after {
+                        if is_rollup && last_is_tampered {
+                            // the roll-up copies I, O, D of the tampered transaction itself
+                            match p.action {
+                                'O' => shift(p, e, false),
+                                'D' => shift(p, e, true),
+                                _ => {}
+                            }
+                        } else if !shift_active {
+                            // nothing to adjust any more
+                        } else if this_txn_removes_it {
+                            // this transaction removes the (smaller) tampered file: its input is still
+                            // shifted, its discard shrinks by the lost entry, its output is genuine
+                            match p.action {
+                                'I' => shift(p, e, false),
+                                'D' => shift(p, e, false),
+                                _ => {}
+                            }
+                        } else if p.action == 'I' || p.action == 'O' {
+                            shift(p, e, false);
+                        }
+                    }
+                }
+                let _ = std::fs::remove_file(&path);
+                std::fs::write(&path, render(&lines)).map_err(|e| ("harness:io".to_string(), e.to_string()))?;
+            }
+            // self-consistency of the tampered history, by the independent balance checker's rules
+            // restricted to the manifest (file contents aside): every fragment must still verify
+            let mv = ManifestVerifier::open().map_err(|e| ("harness:manifest-verifier".to_string(), format!("{e:?}")))?;
+            for f in frags.iter() {
+                let p = scratch.join("mani").join(f.file_name().unwrap());
+                if let Err(e) = mv.verify(&p) {
+                    // my patching is not self-consistent for this history shape: not a verdict
+                    o.label("tamper-not-self-consistent");
+                    o.nontrivial = false;
+                    let _ = e;
+                    return Ok(());
+                }
+            }
+            let trace = std::env::var("VERIF_TRACE").is_ok();
+            if trace {
+                let keep = PathBuf::from(format!("/tmp/verif-keep-tamper-{}", std::process::id()));
+                copy_tree(&scratch, &keep);
+                eprintln!("tampered copy kept at {} (old {old_digest} new {new_digest}, fragment {} txn {ti})", keep.display(), frags[fi].display());
+            }
+            let verdict = verifier_verdict_detailed(&cfg, &scratch);
+            if trace {
+                eprintln!("verifier verdict on the tampered copy: {verdict:?}");
+            }
+            match verdict.and_then(|backed_off| if backed_off { Err("backoff".to_string()) } else { Ok(()) }) {
+                Err(e) if e == "backoff" => {
+                    // the verifier stopped before it could judge: no verdict
+                    o.label("verifier-backed-off-on-tampered-copy");
+                    o.nontrivial = false;
+                    Ok(())
+                }
+                Err(_) => {
+                    o.label("rejected-by:LsmVerifier");
+                    Ok(())
+                }
+                Ok(()) => Err((
+                    "tamper:gc-output-accepted".to_string(),
+                    format!(
+                        "the offline verifier accepted a self-consistent history in which the garbage collection of transaction {ti} in {} lost {} (required by policy `{}`) from its output {old_digest}",
+                        frags[fi].file_name().unwrap().to_string_lossy(),
+                        vsst::tables::show_entry(Some(&victim)),
+                        cfg.gc_policy
+                    ),
+                )),
+            }
+        })();
+        let _ = std::fs::remove_dir_all(&root);
+        let _ = std::fs::remove_dir_all(&scratch);
         if let Err((s, m)) = res {
             o.fail(s, m);
         }
